@@ -99,8 +99,25 @@ def c02_1(ctx: Ctx):
                       f"with block1.size={size} references go to the {'end' if got else 'start'} of block1; "
                       "they must go to its end iff block1 has content (start if it is empty)",
                       key=f"C02.1::join::{size}")
-        # must be evaluated before block1.size changes
+        # end labels of block2 must stay end labels: whenever the bulk retarget goes to the *start* of block1
+        # (block1 empty) the at_end symbols of block2 have to be moved individually, with at_end=True, first
         lin = linear(fj.node)
+        gret = lin.of(c)
+        moved = []
+        for g2 in lin.stmts:
+            if isinstance(g2.node, ast.For) and "get_references(block2)" in src(g2.node.iter) and g2.index < gret.index:
+                sym = src(g2.node.target)
+                for cc in calls_in(g2.node):
+                    if isinstance(cc.func, ast.Attribute) and cc.func.attr == "set_referent" and [src(a) for a in cc.args] == [sym, "block1", "True"]:
+                        gc = lin.of(cc)
+                        if lin.under(gc, f"{sym}.at_end"):
+                            moved.append(g2)
+        ok_end = bool(moved) and all(lin.under(m, "not block1.size") or m.top for m in moved)
+        ctx.check(ok_end, fj, c, "join into an empty block1: end-of-block labels of block2 stay end-of-block labels",
+                  "with block1 empty every reference of block2 - including its at_end symbols - is retargeted to the *start* of block1: an end label "
+                  "of a block whose first bytes were deleted (or that got code inserted at offset 0) becomes a start label",
+                  key="C02.1::join::end-labels-kept")
+        # must be evaluated before block1.size changes
         g = lin.of(c)
         upd = [x for x in lin.stmts if isinstance(x.node, ast.Assign) and src(x.node.targets[0]) == "block1.size"]
         ctx.check(bool(upd) and g.index < upd[0].index, fj, c, "join: retarget before block1 grows", "block1.size is updated before the retarget decides start/end")
